@@ -1320,3 +1320,13 @@ func first(a, _ []byte) []byte { return a }
 //@   requires t != nil
 //@   ensures[pure] frame()
 //@   assigns nothing
+
+// The same codec for byte-slice keys (K = []byte): the caller's bytes are only read - the
+// conversion []byte(string(k)) copies them - and neither result aliases them (C13 for
+// collation trees over []byte keys; the tree stores only what Transform returns).
+//@ func (*CollationOrderKey[K]).Transform@bytes
+//@   opt bind K=[]byte
+//@   requires cok != nil && cok.buf != nil && cok.c != nil
+//@   ensures[arg_bytes_unchanged] sameBytes(k, 0, blen(k.obj))
+//@   ensures[results_do_not_alias_arg] fresh(result0) && fresh(result1) && atype(result0.obj) == 1000 && atype(result1.obj) == 1000
+//@   ensures[scratch_bounded] scratchLen(cok.buf) == len(result1)
